@@ -12,6 +12,8 @@ UNIVERSES = {
     ("C03", "quick"): [("LeavesQuick", 1, 1, False), ("AllBasics", 0, 1, False)],
     ("C03", "thorough"): [("LeavesFull", 1, 1, False), ("LeavesDeep", 2, 1, False)],
     # value-level properties only need the pairs that generate; they can afford deeper types and wider values
+    ("C13", "quick"): [("LeavesOdd", 1, 1, False)],
+    ("C13", "thorough"): [("LeavesFull", 1, 1, False)],
     ("VAL", "quick"): [("LeavesQuick", 1, 2, True), ("LeavesTiny", 2, 1, True)],
     ("VAL", "thorough"): [("LeavesFull", 1, 2, True), ("LeavesDeep", 2, 2, True)],
 }
@@ -32,7 +34,9 @@ def pipeline(run, kind, race=False):
     run.build_harness()
     scen = os.path.join(run.scratch, "scen.ndjson")
     if run.replay:
-        scen = os.path.join(run.replay, "scen.ndjson")
+        scen = os.path.join(run.replay, "scen-rules.ndjson")
+        if not os.path.exists(scen):
+            return {}, scen, None
     else:
         unis = UNIVERSES[(kind, run.tier)]
         run.extra["universes"] = [dict(leaves=u[0], depth=u[1], width=u[2], only_generating=u[3]) for u in unis]
@@ -58,6 +62,8 @@ def pipeline(run, kind, race=False):
     if race:
         args += ["-race", "-race-every", "1" if run.tier == "thorough" else "3"]
     summ = run.harness(args, timeout=7200)
+    run.fam = "rules"
+    run.scen_files["rules"] = scen
     n = run.validate_obs("Obs_Rules", obs, workers=1, timeout=3600)
     return summ, scen, obs
 
